@@ -36,6 +36,11 @@ GATE_SNIPS = [
     "{% include 'ginc.html' %}",
     "{% set v = gate('s') %}{{ v }}{{ tid }}", "{% set who = tid %}{{ gate('t') }}{{ who }}",
     "{% autoescape true %}{{ gate('e') }}{{ html }}{% endautoescape %}{{ html }}", "{{ html }}{{ gate('h') }}{{ [html, html]|join('-') }}{{ html|upper }}",
+    # an autoescape block decided at run time (differently per task) whose body suspends
+    "{% autoescape (tid == 'T0') %}{{ gate('ax') }}{{ [html, '<m>'|safe]|join('-') }}{{ html }}{% endautoescape %}{{ html }}",
+    # await points inside an async filter and inside the iteration of an async iterable (loop state per task)
+    "{{ tid|gf }}{{ html|gf('g2')|upper }}", "{% for x in gxs %}{{ x }}{{ loop.index }}{{ loop.last }}{{ tid }}{% endfor %}",
+    "{% for x in gxs if x %}{{ loop.length }}{{ tid }}{% endfor %}", "{{ [tid, 'z']|map('gf')|join }}",
     # callers with different autoescape modes around a cached module's macro whose body suspends
     "{% autoescape true %}{% import 'glib3.html' as L3 %}{{ L3.gm3(html) }}{% endautoescape %}",
     "{% autoescape false %}{% import 'glib3.html' as L3 %}{{ L3.gm3(html) }}{% endautoescape %}",
@@ -101,17 +106,47 @@ class Sched:
         return "g"
 
 
+SANDBOX = [False]
+ENTRY_MIX = [False]     # odd tasks consume generate_async instead of awaiting render_async
+
+
 def make_env(jinja2, templates, sched, autoescape=False):
+    from jinja2.sandbox import SandboxedEnvironment
     loader = jinja2.FunctionLoader(lambda n: (templates[n], n, lambda: True) if n in templates else None)
-    env = jinja2.Environment(loader=loader, enable_async=True, autoescape=autoescape)
+    cls = SandboxedEnvironment if SANDBOX[0] else jinja2.Environment
+    env = cls(loader=loader, enable_async=True, autoescape=autoescape)
     data, eg, tg = FC.make_inputs()
     env.globals.update(eg)
+    env.sched_holder = {"sched": sched}          # an environment reused for several orders gets a new scheduler each time
 
     async def ggate(label):
-        return await sched.gate(label)
+        return await env.sched_holder["sched"].gate(label)
+
+    async def gf(value, label="gf"):
+        await env.sched_holder["sched"].gate(label)
+        return value
 
     env.globals["ggate"] = ggate
+    env.filters["gf"] = gf
     return env
+
+
+class GatedAIter:
+    """an async iterable as data whose __anext__ parks on a gate before every item"""
+
+    def __init__(self, sched_of, items):
+        self.sched_of, self.items = sched_of, list(items)
+
+    def __aiter__(self):
+        self.i = 0
+        return self
+
+    async def __anext__(self):
+        if self.i >= len(self.items):
+            raise StopAsyncIteration
+        await self.sched_of().gate("it%d" % self.i)
+        self.i += 1
+        return self.items[self.i - 1]
 
 
 def task_data(sched, tid):
@@ -120,13 +155,15 @@ def task_data(sched, tid):
     async def gate(label):
         return await sched.gate(label)
 
-    data.update(gate=gate, tid=tid, html="<i>" + tid, layout=["pa.html", "pb.html", "pc.html"][int(tid[1:]) % 3])
+    data.update(gxs=GatedAIter(lambda: sched, [1, 0]), gate=gate, tid=tid, html="<i>" + tid, layout=["pa.html", "pb.html", "pc.html"][int(tid[1:]) % 3])
     return data
 
 
 async def render_task(env, name, data):
     try:
         t = env.get_template(name)
+        if data.get("tid", "T0")[-1] in "13" and ENTRY_MIX[0]:
+            return "ok:" + "".join([c async for c in t.generate_async(**data)])
         return "ok:" + await t.render_async(**data)
     except Exception as e:  # noqa
         return "exc:" + type(e).__name__
@@ -141,10 +178,14 @@ def run_alone(jinja2, loop, templates, name, tid, autoescape=False):
     return out, [lab for _, lab in sched.log]
 
 
-def run_order(jinja2, loop, templates, names, order, autoescape=False):
+def run_order(jinja2, loop, templates, names, order, autoescape=False, shared_env=None):
     """order: list of task ids; each entry releases that task's next gate.  -> (outputs, max parked, deviated)"""
     sched = Sched()
-    env = make_env(jinja2, templates, sched, autoescape)
+    if shared_env is not None:
+        env = shared_env
+        env.sched_holder["sched"] = sched
+    else:
+        env = make_env(jinja2, templates, sched, autoescape)
 
     async def main():
         tasks = {}
@@ -175,7 +216,7 @@ def run_order(jinja2, loop, templates, names, order, autoescape=False):
             guard += 1
         outs = {}
         for tid, t in tasks.items():
-            outs[tid] = await asyncio.wait_for(t, 5)
+            outs[tid] = await asyncio.wait_for(t, 60)
         return outs, deviated
 
     outs, deviated = loop.run_until_complete(main())
@@ -219,6 +260,9 @@ def run(ctx):
             for si in range(n_sets):
                 ntasks = ctx.rng.choice([2, 2, 3])
                 auto = (si % 3 == 1) if si >= len(FIXED) else FIXED_AUTO[si]
+                SANDBOX[0] = (si % 5 == 2)
+                ENTRY_MIX[0] = (si % 2 == 1)
+                reuse = (si % 4 == 0 and si >= len(FIXED))
                 for _attempt in range(20):
                     templates = dict(AUX)
                     names = []
@@ -243,11 +287,22 @@ def run(ctx):
                     for n, src in templates.items():
                         gen_sources.append((n, env.compile(src, n, n, raw=True)))
                 seqs = [a[1] for a in alone]
+                shared = make_env(jinja2, templates, Sched(), auto) if reuse else None
+                if shared is not None:
+                    # one environment for every order of this set: warm its caches (modules) with one isolated pass
+                    for i, n in enumerate(names):
+                        s0 = Sched()
+                        s0.auto = True
+                        shared.sched_holder["sched"] = s0
+                        loop.run_until_complete(loop.create_task(render_task(shared, n, task_data(s0, f"T{i}")), name=f"T{i}"))
+                    # with warm module caches the tasks do not meet the module-body gates any more
+                    seqs = [[g for g in q if g != "modbody"] for q in seqs]
                 for order_idx in merges(seqs):
                     order = [f"T{i}" for i in order_idx]
-                    case = {"templates": templates, "names": names, "order": order, "autoescape": auto}
+                    case = {"templates": templates, "names": names, "order": order, "autoescape": auto, "sandbox": SANDBOX[0],
+                            "entry_mix": ENTRY_MIX[0], "shared_env": reuse}
                     try:
-                        outs, parked, deviated = run_order(jinja2, loop, templates, names, order, auto)
+                        outs, parked, deviated = run_order(jinja2, loop, templates, names, order, auto, shared)
                     except Exception as e:  # noqa
                         outs, parked, deviated = {f"T{i}": "harness:" + type(e).__name__ for i in range(len(names))}, 0, True
                     ctx.case(sample=dict(case, outputs=outs) if parked >= 2 and ctx.evaluations % 211 == 0 else None,
@@ -291,7 +346,9 @@ FIXED = [
      "{% autoescape false %}{% import 'glib3.html' as L3 %}{{ L3.gm3(html) }}{% endautoescape %}"],
 ]
 FIXED.append([DYN_PARENT[0], DYN_PARENT[0], DYN_PARENT[0]])      # one template, three tasks, three different parents
-FIXED_AUTO = [False, False, False, True, False, False]
+AE_DYN = "{% autoescape (tid == 'T0') %}{{ gate('ax') }}{{ [html, '<m>'|safe]|join('-') }}{{ html }}{% endautoescape %}{{ html }}"
+FIXED.append([AE_DYN, AE_DYN])        # one Template object, two tasks, different run-time autoescape decisions
+FIXED_AUTO = [False, False, False, True, False, False, False]
 
 
 def replay(ctx, data):
@@ -303,6 +360,8 @@ def replay(ctx, data):
     loop = asyncio.new_event_loop()
     templates, names, order = case["templates"], case["names"], case["order"]
     auto = case.get("autoescape", False)
+    SANDBOX[0] = case.get("sandbox", False)
+    ENTRY_MIX[0] = case.get("entry_mix", False)
     alone = [run_alone(jinja2, loop, templates, n, f"T{i}", auto) for i, n in enumerate(names)]
     outs, parked, deviated = run_order(jinja2, loop, templates, names, order, auto)
     loop.close()
